@@ -88,7 +88,7 @@ class Register(GlobalVar):
         else:
             init = self.il_isa_to_assoc_name() + "\n"
 
-        if self.isa_id == "x":
+        if self.isa_id in ["x", "y", "z"]:
             # Rx is always read newly. Since we read the _tmp reg
             # after it was written once.
             return init
@@ -149,7 +149,7 @@ class Register(GlobalVar):
         # Examples: a2_svaddh, a4_vcmpbgt
         if self.access is RegisterAccessType.W or self.access is RegisterAccessType.PW:
             return f"READ_REG(pkt, {self.get_op_var()}, true)"
-        if self.isa_id == "x":
+        if self.isa_id in ["x", "y", "z"]:
             # Fresh reads for Rx registers, since their value changes.
             return self.get_reg_read_code()
         if self.access == RegisterAccessType.UNKNOWN:
